@@ -8,6 +8,7 @@ package comet
 import (
 	"fmt"
 	"math"
+	"sort"
 	"strings"
 )
 
@@ -142,6 +143,44 @@ func vC14Hook(s *vKindSys, h []string) {
 				s.c.Nontrivial(fmt.Sprintf("%s|%s|exactrep%d/%d", s.cfgS, mkey, qi, id))
 			}
 			s.c.Nontrivial(fmt.Sprintf("%s|%s|bound%d/%d", s.cfgS, mkey, qi, id))
+		}
+	}
+	// a query AT the quantised form of a stored vector (Euclidean family: the query is used as
+	// given): its score is 0 up to rounding, so it is returned under any positive threshold,
+	// however far the quantised form lies from everything that was ever trained on or added
+	if s.cfg.Metric != Cosine {
+		ids := make([]int, 0, len(recon))
+		for id := range recon {
+			if _, live := s.m.live[id]; live {
+				ids = append(ids, int(id))
+			}
+		}
+		sort.Ints(ids)
+		for _, id := range ids {
+			rc := recon[uint32(id)]
+			q := make([]float32, len(rc))
+			nq := 0.0
+			for j := range rc {
+				q[j] = float32(rc[j])
+				nq += rc[j] * rc[j]
+			}
+			thr := float32(1e-3 * math.Max(vXFUnit(s.cfg.Metric, 1), nq))
+			s.c.Evaluations++
+			res, err := vRunVecQuery(s.idx, vVecQuery{Q: q, K: -1, Thr: thr, NProb: -1})
+			if err != nil {
+				s.c.Violation("search-error", "", s.cfgS, h, err.Error())
+				continue
+			}
+			found := false
+			for _, r := range res {
+				if r.Node.ID() == uint32(id) {
+					found = true
+				}
+			}
+			if !found {
+				s.c.Violation("query-at-quantised-form-misses-its-vector", "", s.cfgS, h, fmt.Sprintf("query %v is the reconstruction of live id %d (score 0 up to rounding); threshold %v, all lists probed: got [%s]", q, id, thr, vResStr(res)))
+			}
+			s.c.Nontrivial(fmt.Sprintf("%s|%s|atrecon%d", s.cfgS, mkey, id))
 		}
 	}
 	// partial probe (ivfpq): exact top-k by ADC score within a valid set of p nearest clusters
@@ -314,6 +353,12 @@ func vC14Configs(tier string) []vVecCfg {
 		out = append(out, vVecCfg{Kind: "pq", Metric: metric, Dim: 4, M: 2, NBits: 2, Train: -4})
 	}
 	out = append(out, vVecCfg{Kind: "ivfpq", Metric: Euclidean, Dim: 6, NList: 2, M: 3, NBits: 1, Train: -4})
+	// sparse-large / dense-medium mixtures, few codewords per subspace
+	for _, metric := range []DistanceKind{Euclidean, L2Squared} {
+		out = append(out, vVecCfg{Kind: "ivfpq", Metric: metric, Dim: 4, NList: 2, M: 4, NBits: 2, Train: -5})
+		out = append(out, vVecCfg{Kind: "ivfpq", Metric: metric, Dim: 4, NList: 2, M: 2, NBits: 2, Train: -5})
+		out = append(out, vVecCfg{Kind: "ivfpq", Metric: metric, Dim: 6, NList: 2, M: 6, NBits: 2, Train: -5})
+	}
 	// wide subspaces (dim/M = 8, 10, 16, 24): per-subspace loops longer than any unrolling width
 	for _, metric := range metrics {
 		out = append(out, vVecCfg{Kind: "pq", Metric: metric, Dim: 8, M: 1, NBits: 2, Train: -2})
@@ -380,6 +425,40 @@ func vC14Sys(c *vCtx, cfg vVecCfg) *vKindSys {
 				v[j] = []float32{0.75, -0.5}[(j-(cfg.Dim-dsub))%2]
 			}
 		}
+	}
+	if cfg.Train == -5 {
+		// a mixture of "sparse-large" vectors (one coordinate +-10, the rest 0) and
+		// "dense-medium" ones (every coordinate +-6): with few codewords per subspace the zeros
+		// of the sparse vectors are rounded OUTWARD in several subspaces at once, so quantised
+		// forms lie farther from their list centroid than any true vector does
+		s.train = nil
+		for g := 0; g < cfg.NList; g++ {
+			off := float32(g) * 40
+			// (dense first: the codebooks are seeded from the first points)
+			for r := 0; r < 2; r++ {
+				for _, sg := range []float32{1, -1} {
+					v := make([]float32, cfg.Dim)
+					for j := range v {
+						v[j] = off + sg*6
+					}
+					s.train = append(s.train, v)
+				}
+			}
+			for r := 0; r < 2; r++ {
+				for c := 0; c < cfg.Dim; c++ {
+					for _, sg := range []float32{1, -1} {
+						v := make([]float32, cfg.Dim)
+						for j := range v {
+							v[j] = off
+						}
+						v[c] = off + sg*10
+						s.train = append(s.train, v)
+					}
+				}
+			}
+		}
+		nt := len(s.train) / cfg.NList
+		s.vals = [][]float32{vCopyVec(s.train[0]), vCopyVec(s.train[4]), vCopyVec(s.train[1]), vCopyVec(s.train[nt])}
 	}
 	s.hook = vC14Hook
 	s.noMulti = true
